@@ -30,6 +30,7 @@ def rule_strip(ctx):
     r = ctx.rule("strip", "in tokenize() every chunk whose type is not CT_IGNORED has trailing ' ' and '\\t' removed (pop_back loop) on every "
                  "path to CopyAndAddBefore; the loop is controlled by GetType() != CT_IGNORED only")
     f = db.fn("tokenize", file=TOK)
+    r.names(f, "chunk", "ctx", "ref", "pc")
     pops = [n for n in f.all_nodes() if n["k"] == "call" and (n.get("c") or "").endswith("::pop_back") and expr_str(f, n.get("o")) == "chunk.Str()"]
     r.require(len(pops) == 1, "tokenize: %d pop_back sites on chunk.Str()" % len(pops))
     pop = pops[0]
